@@ -302,19 +302,44 @@ class World(BaseWorld):
                     raise
                 except Exception as e:
                     outP = type(e).__name__
-                try:
-                    rS = self.solve(pp, S, srS, user, gS)
-                except Exception as e:
-                    outS = type(e).__name__
-                if outP or outS:
-                    if identical_inputs and outP != outS:
-                        raise Violation('resolve_outcome_differs_from_fresh', 'solve', {'object': outP, 'fresh': outS}, step)
-                    raise Skip('re-solve raised (%s / %s)' % (outP, outS))
-                okP, okS = self.converged(rP), self.converged(rS)
-                if okP != okS and identical_inputs:
-                    raise Violation('resolve_outcome_differs_from_fresh', 'solve', {'object_converged': okP, 'fresh_converged': okS}, step)
-                if not (okP and okS):
-                    raise Skip('re-solve did not converge')
+                if identical_inputs:
+                    # same deterministic computation on bit-identical inputs: outcome and arrays must agree
+                    srS.force_index = srP.records[-1].index if srP.records else None
+                    try:
+                        rS = self.solve(pp, S, srS, user, gS)
+                    except Exception as e:
+                        outS = type(e).__name__
+                    if outP or outS:
+                        if outP != outS:
+                            raise Violation('resolve_outcome_differs_from_fresh', 'solve', {'object': outP, 'fresh': outS}, step)
+                        raise Skip('re-solve raised (%s / %s)' % (outP, outS))
+                    okP, okS = self.converged(rP), self.converged(rS)
+                    if okP != okS:
+                        raise Violation('resolve_outcome_differs_from_fresh', 'solve', {'object_converged': okP, 'fresh_converged': okS}, step)
+                    if not okP:
+                        raise Skip('re-solve did not converge')
+                    ctx.probe('resolve_inputs_bit_identical')
+                else:
+                    # omega was round-tripped by the user (or the guesses differ in the last bit): two runs of an iterative solver may
+                    # legitimately end a solver-tolerance apart, so the shadow is not re-solved; it is evaluated at the object's new
+                    # root ("a fresh object solved to the same root") and must reproduce the reported residual there
+                    if outP:
+                        raise Skip('re-solve raised (%s)' % outP)
+                    if not self.converged(rP):
+                        raise Skip('re-solve did not converge')
+                    S.minimize_result = copy.deepcopy(rP)
+                    with warnings.catch_warnings():
+                        warnings.simplefilter('ignore')
+                        with np.errstate(all='ignore'):
+                            y = np.asarray(S.cost(np.array(rP.x, dtype=float, copy=True)), dtype=float)
+                            if oracles.space_name(pp, S.totalCorr) == 'Fourier':
+                                S.sys.domain.MatrixArray_to_real(S.totalCorr)
+                    f = np.asarray(rP.fun, dtype=float)
+                    sc = max(1.0, float(np.max(np.abs(rP.x))), float(np.max(np.abs(f))))
+                    if y.shape != f.shape or not float(np.max(np.abs(y - f))) <= TOL * sc:
+                        raise Violation('resolve_residual_not_reproduced_by_fresh', 'solve', {
+                            'max_abs_diff': float(np.max(np.abs(y - f))) if y.shape == f.shape else 'shape', 'scale': sc}, step)
+                    ctx.probe('resolve_inputs_differ_by_rounding')
                 self.check_root_state(pp, P, rP, grid, 'resolve', step)
                 if not srP.records[-1].last_eval_is_root:
                     ctx.probe('resolve_with_stale_last_eval')
